@@ -814,7 +814,16 @@ class Unit:
         self.fn += 1
         params = rng.sample(self.names, rng.randint(0, 3))
         pv = [(p, self.newv()) for p in params]
-        self.open_("void fn_%d(%s) {" % (self.fn, ", ".join("char (*%s)[%d]" % x for x in pv) or "void"), "}")
+        plist = ", ".join("char (*%s)[%d]" % x for x in pv) or "void"
+        self.nfunc = getattr(self, "nfunc", 0) + 1
+        if self.nfunc % 2 == 1:
+            # a definition whose declarator has TWO parameter lists (a function returning a pointer to function): the body
+            # is parsed in the scope of the FIRST list; the names of the second list are prototype scope only
+            p2 = [(q, self.newv()) for q in rng.sample(self.names, rng.randint(1, 3))]
+            self.open_("void (*fn_%d(%s))(%s) {" % (self.fn, plist, ", ".join("char (*%s)[%d]" % x for x in p2)), "}")
+            self.stats["function-returning-function-pointer"] += 1
+        else:
+            self.open_("void fn_%d(%s) {" % (self.fn, plist), "}")
         self.push()
         for p, v in pv:
             self.chain[-1][0][p] = ("param", v)
